@@ -476,29 +476,18 @@ theorem needK_ofList_mem (l : List (PyVal × PyVal)) (e : PyVal × PyVal) (he : 
 
 /-! ### what is shown of a represented node: which type it is recognised as, and its shape -/
 
-/-- the type recognition settles on: the declared type itself, or - for `Optional[T]` - `None`'s or `T` -/
-def resolvedTy (T : Ty) (v : PyVal) : Ty :=
-  match T with
-  | .union (.cons T0 (.cons .null .nil)) => if v = .scalar .none then .null else T0
-  | _ => T
-
 def DescAt (env : Env) (tbl : List Entry) (f : Nat) (T R : Ty) (v : PyVal) (n : Node) : Prop :=
   ∃ l, recognize env f n T = .ok ([R], l) ∧ ∃ f', f = f' + 1 ∧ RTcore env tbl f' (RT env tbl f') R v n
 
+/-- recognition settles on one type `R` (the declared type itself, or - behind an `Optional` / `Union` -
+the member concerned), and the node has the shape of a value of `R` -/
 def Desc (env : Env) (tbl : List Entry) (f : Nat) (T : Ty) (v : PyVal) (n : Node) : Prop :=
-  DescAt env tbl f T (resolvedTy T v) v n
+  ∃ R, DescAt env tbl f T R v n
 
 theorem desc_rt {env : Env} {tbl : List Entry} {f : Nat} {T R : Ty} {v : PyVal} {n : Node}
     (h : DescAt env tbl f T R v n) : RT env tbl f T v n := by
   obtain ⟨l, hr, f', rfl, hc⟩ := h
   exact ⟨R, l, hr, hc⟩
-
-theorem resolved_self (T : Ty) (v : PyVal) (hno : ∀ T', T ≠ optTy T') : resolvedTy T v = T := by
-  unfold resolvedTy
-  split
-  · rename_i T0
-    exact absurd rfl (hno T0)
-  · rfl
 
 theorem desc_core (env : Env) (denv : DumpEnv) (tbl : List Entry) (hns : C07.NoSweeten denv) (g : Nat)
     (IH : ∀ (T : Ty) (v : PyVal) (o : RepOut), represent denv g v = .ok o → HasTyE env T v →
@@ -508,7 +497,7 @@ theorem desc_core (env : Env) (denv : DumpEnv) (tbl : List Entry) (hns : C07.NoS
   intro T v o h ht hno f hf
   have simple_described : ∀ (T : Ty) (v : PyVal) (o : RepOut), represent denv g v = .ok o → HasTyE env T v →
       ∀ f, need v ≤ f → RT env tbl f T v o.node :=
-    fun T v o h ht f hf => desc_rt (IH T v o h ht f hf)
+    fun T v o h ht f hf => by obtain ⟨R, hR⟩ := IH T v o h ht f hf; exact desc_rt hR
   obtain ⟨f, rfl⟩ : ∃ f', f = f' + 1 := ⟨f - 1, by have := need_pos v; omega⟩
   cases ht with
   | optNone T _ => exact absurd rfl (hno T)
@@ -937,9 +926,6 @@ theorem nonNull_value (env : Env) (T : Ty) (v : PyVal) (hnn : NonNullTy env T) (
   | optNone T' _ => cases hnn
   | optSome T' _ _ _ => cases hnn
 
-theorem resolved_opt_some (T : Ty) (v : PyVal) (hv : v ≠ .scalar .none) : resolvedTy (optTy T) v = T := by
-  simp [resolvedTy, optTy, hv]
-
 /-- **The representers' node describes the value**, for plain data, objects of simple classes and
 `Optional` positions, nested to any depth: recognition singles out one type at every node, and the node has
 the shape the loader turns back into the value. -/
@@ -952,9 +938,7 @@ theorem simple_described (env : Env) (denv : DumpEnv) (tbl : List Entry) (hns : 
     have core := desc_core env denv tbl hns g IH
     have plain : ∀ (hno : ∀ T', T ≠ optTy T'), Desc env tbl f T v o.node := by
       intro hno
-      unfold Desc
-      rw [resolved_self T v hno]
-      exact core T v o h ht hno f (by omega)
+      exact ⟨T, core T v o h ht hno f (by omega)⟩
     cases ht with
     | str s => exact plain (by intro T' e; simp [optTy] at e)
     | int i => exact plain (by intro T' e; simp [optTy] at e)
@@ -979,8 +963,7 @@ theorem simple_described (env : Env) (denv : DumpEnv) (tbl : List Entry) (hns : 
       have hrec : recognize env (b + 3) (.scalar tNull "null" gen) (optTy T) = .ok ([.null], [okLeaf]) := by
         simp only [recognize, optTy, recognizeReq, Tys.toList]
         exact recUnion_opt _ _ T .null l1 [okLeaf] (Or.inr ⟨h1, h2⟩)
-      exact ⟨[okLeaf], by simpa [resolvedTy, optTy] using hrec, b + 2, rfl,
-        by simpa [resolvedTy, optTy] using (RTcore.null "null" gen)⟩
+      exact ⟨.null, [okLeaf], hrec, b + 2, rfl, RTcore.null "null" gen⟩
     | optSome T v hnn hin =>
       have hno := nonNull_not_opt env T hnn
       have hv := nonNull_value env T v hnn hin
@@ -996,9 +979,7 @@ theorem simple_described (env : Env) (denv : DumpEnv) (tbl : List Entry) (hns : 
       have hrec : recognize env (f'' + 1 + 1) o.node (optTy T) = .ok ([T], [okLeaf]) := by
         simp only [recognize, optTy, recognizeReq, Tys.toList]
         exact recUnion_opt _ _ T T l1 l3 (Or.inl ⟨hr1, hr3⟩)
-      unfold Desc
-      rw [resolved_opt_some T v hv]
-      exact ⟨[okLeaf], hrec, f'' + 1, rfl, hcore⟩
+      exact ⟨T, [okLeaf], hrec, f'' + 1, rfl, hcore⟩
 
 end YatimlModel.C05
 
@@ -1018,7 +999,8 @@ theorem C05_simple_objects_roundtrip (env : Env) (denv : DumpEnv) (tbl : List En
     (hns : C07.NoSweeten denv) (g f : Nat) (T : Ty) (v : PyVal) (o : RepOut)
     (hrep : represent denv g v = .ok o) (hty : HasTyE env T v) (hf : need v ≤ f) :
     ∃ calls trace processed, loadNode env tbl f o.node T = .ok ⟨v, calls, trace, processed⟩ :=
-  RT_load env tbl f T v o.node (desc_rt (simple_described env denv tbl hns g T v o hrep hty f hf))
+  (simple_described env denv tbl hns g T v o hrep hty f hf).elim
+    (fun _ hR => RT_load env tbl f T v o.node (desc_rt hR))
 
 end YatimlModel.C05
 
